@@ -903,6 +903,113 @@ pub open spec fn esc_table(seqs: Seq<String>, n: int) -> Map<char, Seq<char>>
 pub open spec fn is_table(m: Map<char, String>, t: Map<char, Seq<char>>) -> bool {
     forall|c: char| #![trigger m.contains_key(c)] #![trigger t.contains_key(c)] m.contains_key(c) == t.contains_key(c) && (t.contains_key(c) ==> m[c]@ == t[c])
 }
+// ---- C15: a csv STRING FIELD is machine-readable. An RFC 4180 reader of a quoted field: two quotes are one quote of the
+// content, a single quote ends the field, every other character (commas, line breaks, ...) is content
+pub open spec fn csv_dec(t: Seq<char>, i: int, acc: Seq<char>) -> Option<(Seq<char>, int)>
+    decreases t.len() - i
+{
+    if i < 0 || i >= t.len() { None }
+    else if t[i] == '"' { if i + 1 < t.len() && t[i + 1] == '"' { csv_dec(t, i + 2, acc.push('"')) } else { Some((acc, i)) } }
+    else { csv_dec(t, i + 1, acc.push(t[i])) }
+}
+// the csv escape table: a quote is written as two quotes, nothing else is touched
+pub open spec fn csv_map(m: Map<char, String>) -> bool { forall|c: char| #[trigger] m.contains_key(c) == (c == '"') && m['"']@ == seq!['"', '"'] }
+pub proof fn lemma_csv_preset_table(o: TextOutputOptions, m: Map<char, String>)
+    requires is_csv_preset(o), is_table(m, esc_table(o.escape_sequance@, o.escape_sequance@.len() as int)),
+    ensures csv_map(m), o.string_prefix@ == seq!['"'], o.string_postfix@ == seq!['"'],
+{
+    reveal_with_fuel(esc_table, 2);
+    reveal_strlit("\"\"\""); reveal_strlit("\"");
+    let v = o.escape_sequance@[0]@;
+    assert(v.len() == 3 && v[0] == '"' && v[1] == '"' && v[2] == '"');
+    assert(v.subrange(1, 3) =~= seq!['"', '"']);
+    let t = esc_table(o.escape_sequance@, 1);
+    assert(t == Map::<char, Seq<char>>::empty().insert('"', v.subrange(1, 3)));
+    assert forall|c: char| #[trigger] m.contains_key(c) == (c == '"') by { assert(t.contains_key(c) == (c == '"')); }
+    assert(t.contains_key('"'));
+    assert(o.string_prefix@ =~= seq!['"']);
+    assert(o.string_postfix@ =~= seq!['"']);
+}
+pub proof fn lemma_text_esc_all_front(m: Map<char, String>, s: Seq<char>)
+    requires s.len() > 0,
+    ensures text_esc_all(m, s) == text_esc(m, s[0]).add(text_esc_all(m, s.subrange(1, s.len() as int))),
+    decreases s.len(),
+{
+    let t = s.subrange(1, s.len() as int);
+    if s.len() == 1 {
+        reveal_with_fuel(text_esc_all, 2);
+        assert(s.drop_last() =~= Seq::<char>::empty());
+        assert(t =~= Seq::<char>::empty());
+        assert(text_esc_all(m, s) =~= text_esc(m, s[0]));
+        assert(text_esc(m, s[0]).add(text_esc_all(m, t)) =~= text_esc(m, s[0]));
+    } else {
+        lemma_text_esc_all_front(m, s.drop_last());
+        assert(s.drop_last().subrange(1, s.len() - 1) =~= t.drop_last());
+        assert(s.drop_last()[0] == s[0]);
+        assert(t.last() == s.last());
+        assert(text_esc(m, s[0]).add(text_esc_all(m, t.drop_last())).add(text_esc(m, s.last())) =~= text_esc(m, s[0]).add(text_esc_all(m, t.drop_last()).add(text_esc(m, t.last()))));
+    }
+}
+pub proof fn lemma_csv_body(t: Seq<char>, i: int, acc: Seq<char>, m: Map<char, String>, s: Seq<char>)
+    requires csv_map(m), 0 <= i, i + text_esc_all(m, s).len() < t.len(),
+        forall|j: int| 0 <= j < text_esc_all(m, s).len() ==> t[i + j] == #[trigger] text_esc_all(m, s)[j],
+        t[i + text_esc_all(m, s).len()] == '"',
+        i + text_esc_all(m, s).len() + 1 >= t.len() || t[i + text_esc_all(m, s).len() + 1] != '"',
+    ensures csv_dec(t, i, acc) == Some((acc.add(s), i + text_esc_all(m, s).len())),
+    decreases s.len(),
+{
+    let body = text_esc_all(m, s);
+    if s.len() == 0 {
+        assert(body =~= Seq::<char>::empty());
+        assert(acc.add(s) =~= acc);
+    } else {
+        let r = s.subrange(1, s.len() as int);
+        lemma_text_esc_all_front(m, s);
+        let e0 = text_esc(m, s[0]); let br = text_esc_all(m, r);
+        assert(body == e0.add(br));
+        assert forall|j: int| 0 <= j < br.len() implies t[i + e0.len() + j] == #[trigger] br[j] by { assert(body[e0.len() + j] == br[j]); assert(t[i + (e0.len() + j)] == body[e0.len() + j]); }
+        if s[0] == '"' {
+            assert(m.contains_key('"'));
+            assert(e0 == seq!['"', '"']);
+            assert(t[i + 0] == body[0] && t[i + 1] == body[1]);
+            assert(body[0] == '"' && body[1] == '"');
+            lemma_csv_body(t, i + 2, acc.push('"'), m, r);
+            assert(acc.push('"').add(r) =~= acc.add(s));
+        } else {
+            assert(!m.contains_key(s[0]));
+            assert(e0 == seq![s[0]]);
+            assert(t[i + 0] == body[0]);
+            assert(body[0] == s[0]);
+            lemma_csv_body(t, i + 1, acc.push(s[0]), m, r);
+            assert(acc.push(s[0]).add(r) =~= acc.add(s));
+        }
+    }
+}
+// THE FIELD (C15): the text the csv printer writes for a string — whatever quotes, commas or line breaks it contains — placed in a
+// line and followed by anything but a quote (the `, ` before the next field, the row separator, the end), is read back by an
+// RFC 4180 reader as exactly the string
+pub proof fn lemma_csv_string_field(p: TextPrinter, pre: Seq<char>, post: Seq<char>, s: Seq<char>)
+    requires is_csv_preset(p.opts()), is_table(p.esc_map(), esc_table(p.opts().escape_sequance@, p.opts().escape_sequance@.len() as int)),
+        post.len() == 0 || post[0] != '"',
+    ensures ({
+        let t = pre.add(p.string_field(s)).add(post);
+        t[pre.len() as int] == '"' && csv_dec(t, pre.len() as int + 1, Seq::empty()) == Some((s, pre.len() as int + 1 + text_esc_all(p.esc_map(), s).len() as int))
+    }), // @obl PRINT.csv.string_field_roundtrip : C15
+{
+    let m = p.esc_map();
+    lemma_csv_preset_table(p.opts(), m);
+    let body = text_esc_all(m, s);
+    let f = p.string_field(s);
+    assert(f =~= seq!['"'].add(body).add(seq!['"']));
+    let t = pre.add(f).add(post);
+    let i = pre.len() as int + 1;
+    assert(t[pre.len() as int] == f[0]);
+    assert forall|j: int| 0 <= j < body.len() implies t[i + j] == #[trigger] body[j] by { assert(t[i + j] == f[1 + j]); }
+    assert(t[i + body.len()] == f[1 + body.len() as int]);
+    if post.len() > 0 { assert(t[i + body.len() + 1] == post[0]); }
+    lemma_csv_body(t, i, Seq::empty(), m, s);
+    assert(Seq::<char>::empty().add(s) =~= s);
+}
 impl vstd::std_specs::convert::FromSpecImpl<TextOutputOptions> for TextPrinter {
     open spec fn obeys_from_spec() -> bool { false }
     uninterp spec fn from_spec(v: TextOutputOptions) -> Self;
